@@ -24,6 +24,22 @@ def _int(v):
     return int(v) if v == int(v) and abs(v) < 1e6 else -999
 
 
+def stored_order(X, seed: int):
+    """presentation of sparse data: the stored order of the nonzeros (as converted = ascending linear index, reversed,
+    sorted by rows = last index fastest, or shuffled) - the constructor keeps the order it is given"""
+    import bind
+    n = X.nnz
+    if n < 2 or seed % 4 == 0:
+        return X
+    if seed % 4 == 1:
+        p = np.arange(n)[::-1]
+    elif seed % 4 == 2:
+        p = np.lexsort(tuple(X.subs[:, k] for k in range(X.subs.shape[1] - 1, -1, -1)))
+    else:
+        p = np.random.RandomState(seed).permutation(n)
+    return bind.ttb.sptensor(X.subs[p, :].copy(), X.vals[p, :].copy(), X.shape)
+
+
 def sample_event(req: dict, holder: str, via: str, seed: int) -> dict:
     """run one sampling request against the real sampler; log the triple"""
     import bind
@@ -39,7 +55,7 @@ def sample_event(req: dict, holder: str, via: str, seed: int) -> dict:
         dense = dense.astype(bool)
     X = ttb.tensor(dense)
     if holder == "sparse":
-        X = X.to_sptensor()
+        X = stored_order(X.to_sptensor(), seed)
     np.random.seed(seed)
     a = dict(req)
     a["holder"], a["via"] = holder, via
@@ -171,7 +187,7 @@ def problem(p: dict):
         obj = Objectives.GAUSSIAN
     X = ttb.tensor(dense)
     if p["sparse"]:
-        X = X.to_sptensor()
+        X = stored_order(X.to_sptensor(), p["dseed"])
     fh, gh, lb = setup(obj, X)
     r2 = np.random.RandomState(p["dseed"] + 5)
     init = ttb.ktensor([(r2.randn(s, R) if p.get("signed_init") else r2.rand(s, R) + 0.1) for s in shape], np.ones(R))
